@@ -24,7 +24,10 @@ from fractions import Fraction as F
 
 from . import si
 
-USYS = [si.DEFAULT, ("dm", "min", "µmol"), ("cm", "ms", "nmol")]
+USYS = [si.DEFAULT, ("dm", "min", "µmol"), ("cm", "ms", "nmol"),
+        # indices 3.. : the default system with a foreign length unit (magnitude sub-space of C13)
+        ("km", "s", "molecule"), ("fm", "s", "molecule"), ("nm", "s", "molecule"), ("dm", "s", "molecule")]
+LENGTH_US = {"µm": 0, "km": 3, "fm": 4, "nm": 5, "dm": 6}
 DIM = {"density": (-3, 0, 1), "volume": (3, 0, 0), "amount": (0, 0, 1)}
 
 # curated unit texts used by the alphabets: text -> [(documented symbol, exponent)]
@@ -39,6 +42,19 @@ UNIT_TEXTS = {
     "mol": [("mol", 1)], "molecule": [("molecule", 1)], "nmol": [("nmol", 1)], "µmol": [("µmol", 1)],
     "fmol": [("fmol", 1)],
 }
+for _l in ("km", "fm", "nm", "dm"):
+    UNIT_TEXTS["molecule/%s3" % _l] = [("molecule", 1), (_l, -3)]
+    UNIT_TEXTS["%s3" % _l] = [(_l, 3)]
+UNIT_TEXTS["dm3"] = [("dm", 3)]
+
+# a double is "normal with margin" when 2^-1020 <= |x| <= 2^1022
+_NORMAL_LO = F(1, 2 ** 1020)
+_NORMAL_HI = F(2 ** 1022)
+
+
+def is_normal_double(x):
+    """True when the exact value x (Fraction) is zero or well inside the range of normal doubles."""
+    return x == 0 or _NORMAL_LO <= abs(x) <= _NORMAL_HI
 
 
 def text_scale_dim(text):
@@ -155,4 +171,8 @@ def selftest():
     assert lookup({"a": 0, "default": 2}, "a") == (0, "env")
     assert text_scale_dim("nmol.cm-3") == (si.AVOGADRO * F(10) ** -9 * F(10) ** 6, (-3, 0, 1))
     assert text_scale_dim("fL") == (F(10) ** -18, (3, 0, 0))
+    assert text_scale_dim("molecule/km3") == (F(10) ** -9, (-3, 0, 1)) and USYS[LENGTH_US["fm"]][0] == "fm"
+    # 2.5e-300 molecule/km3 x 4 km3 = 1e-299 molecule: an ordinary (normal) amount
+    assert is_normal_double(q_si(2.5e-300, USYS[3], "density") * q_si(4, USYS[3], "volume"))
+    assert not is_normal_double(F(10) ** -320) and not is_normal_double(F(10) ** 310) and is_normal_double(F(0))
     return True
